@@ -134,6 +134,16 @@ let answer kw =
        | Some l ->
            "ok|" ^ flags ^ "|" ^ String.concat ";" (List.map tree_str l) ^ "|" ^
            String.concat ";" (List.map (fun t -> match uncum t with Some t' -> tree_str t' ^ "=" ^ string_of_int (int_of_z (tcost t')) | None -> "-") l))
+  | "PRUNE" ->
+      (* one root n nodes: the least cost and the trees (own costs) of the DAG after minimal cost pruning *)
+      let one = next () <> 0 in
+      let root = nat_of_int (next ()) in
+      let nn = next () in
+      let st = times nn read_dnode in
+      if not (acyclic_b st) then "cyclic" else
+      (match prune_denote st one root with
+       | None -> "none"
+       | Some (m, l) -> "ok|" ^ string_of_int (int_of_z m) ^ "|" ^ String.concat ";" (List.map tree_str l))
   | "FREETREE" ->
       (* fuel root n nodes: what yaep_free_tree passes to parse_free (nodes, names) and how often it calls the terminal callback *)
       let fuel = nat_of_int (next ()) in
